@@ -10,7 +10,7 @@ TB = ("Trusted: Lean 4.33 kernel + propext/Classical.choice/Quot.sound (audited 
 
 CHECKS = {
     "C01": dict(
-        text="Refinement theorem proved in Lean 4 for every history, query and measurement filter: the model of database.py/index.py (index path, scan path, shortcuts) returns exactly Spec.search/count/contains/get/select of the stored contents; sorted results are a stable time sort, unsorted ones a sublist of storage. The model is tied to the code by generated definitions (find_*, and the class Index translated method by method: the translated leaf searches return the Model's sets, Props/C01Mirror.lean) and by differential runs of histories in the four configurations.",
+        text="Refinement theorem proved in Lean 4 for every history, query and measurement filter: the model of database.py/index.py (index path, scan path, shortcuts) returns exactly Spec.search/count/contains/get/select of the stored contents; sorted results are a stable time sort, unsorted ones a sublist of storage. The model is tied to the code by generated definitions (find_*; index.py and TinyFlux.search / get / count / contains of database.py translated statement by statement into Lean on every run and proved to be the Model's operations — Index.search, the leaf searches, the time search over find_*, and the four reads over them: Props/C01Mirror.lean over Mirror/*) and by differential runs of histories in the four configurations.",
         note=TB + "Guard: measurement filter != '' (known finding). Stored points assumed Good (dict-shaped, unchanged by the storage codec — C05). float timestamps modelled as integer microseconds (order embedding on 1700-2240, C08).",
         tech="Lean 4 refinement proof (index/database model -> list spec), mirror theorems over index.py translated into Lean on every run + history-level differential correspondence", ref="DESIGN.md 5/C01"),
     "C02": dict(
@@ -50,7 +50,7 @@ CHECKS = {
         note=TB + "Index maps flattened in the model (invisible in answers); answers compared, not attribute dumps.",
         tech="Lean 4 invariant proof (Represents/Inv) over the hand model and over index.py translated into Lean on every run + index-probe differential correspondence", ref="DESIGN.md 5/C06"),
     "C07": dict(
-        text="Proved in Lean 4: every getter, len, iteration, all() and the Measurement-local twins return the Spec one-liner over the stored contents on the index path and on the scan path. Tied to the code by translation (the six getters of index.py translated on every run are proved equal to the Model's getters on every state the translated maintenance methods produce, Props/C07Mirror.lean) and by differential runs of histories.",
+        text="Proved in Lean 4: every getter, len, iteration, all() and the Measurement-local twins return the Spec one-liner over the stored contents on the index path and on the scan path. Tied to the code by translation (the six getters of index.py, and TinyFlux.__len__ / get_measurements / get_field_keys / get_field_values / get_tag_keys / get_timestamps of database.py, translated on every run, are proved equal to the Model's answers on every state the translated maintenance methods produce, Props/C07Mirror.lean) and by differential runs of histories.",
         note=TB + "Guard: measurement argument != '' (known finding). CSV record counting is checked at the file level (C04). Recorded finding: a storage read nested in an iteration over CSV storage cuts the iteration short (one shared file handle).",
         tech="Lean 4 refinement proof + history-level differential correspondence", ref="DESIGN.md 5/C07"),
     "C08": dict(
